@@ -80,7 +80,7 @@ def check_widths(run, repo, eff, fr, fa, rule='C10-W', select=reg_sink):
         if ex is None:
             continue
         tr = Walker(repo, eff).walk(ex, ci)
-        te = ctx.term_eval(fr.for_abstract(ci.name), ci.module)
+        te = ctx.term_eval(fr.for_abstract(ci.name), ci.module, sinks.joint_for(fr, ci.name))
         te.loops = loops_of(tr)
         n, bad = judge_trace(run, rule, repo, tr, te, ci.relpath, ci.name + '.execute', select)
         nb += 1
